@@ -129,13 +129,43 @@ func (u *Unit) defineSpec(name string, con *Contract, fn *ssa.Function) *specDef
 // SpecDefs renders the spec functions used by this unit: non-recursive ones as
 // define-fun (so that quantifiers in their bodies are ordinary macros),
 // recursive groups as define-funs-rec, in dependency order.
-func (u *Unit) SpecDefs() string {
+func (u *Unit) SpecDefs(roots []*Term) string {
 	if len(u.specOrder) == 0 {
 		return ""
 	}
 	bySym := map[string]*specDef{}
 	for _, n := range u.specOrder {
 		bySym[u.specs[n].symbol()] = u.specs[n]
+	}
+	// only the spec functions reachable from this obligation's assertions are defined
+	needed := map[*specDef]bool{}
+	{
+		seen := map[int]bool{}
+		var work []*specDef
+		var visit func(t *Term)
+		visit = func(t *Term) {
+			if seen[t.id] {
+				return
+			}
+			seen[t.id] = true
+			if d, ok := bySym[t.op]; ok && len(t.args) > 0 && !needed[d] {
+				needed[d] = true
+				work = append(work, d)
+			}
+			for _, a := range t.args {
+				visit(a)
+			}
+		}
+		for _, r := range roots {
+			visit(r)
+		}
+		for len(work) > 0 {
+			d := work[len(work)-1]
+			work = work[:len(work)-1]
+			if d.body != nil {
+				visit(d.body)
+			}
+		}
 	}
 	deps := map[*specDef][]*specDef{}
 	for _, n := range u.specOrder {
@@ -203,7 +233,7 @@ func (u *Unit) SpecDefs() string {
 		}
 	}
 	for _, n := range u.specOrder {
-		if index[u.specs[n]] == 0 {
+		if index[u.specs[n]] == 0 && needed[u.specs[n]] {
 			strong(u.specs[n])
 		}
 	}
